@@ -325,6 +325,7 @@ func (bs *baseServer) Handshake(transportName string, ctx *types.HttpContext) (*
 	transport.OnRequest(ctx)
 
 	socket := NewSocket(id, bs, transport, ctx, protocol)
+	utils.VerifYield("handshake.registered", id)
 
 	bs.clients.Store(id, socket)
 	bs.clientsCount.Add(1)
